@@ -70,6 +70,7 @@ func runC14(c *Ctx) {
 		return
 	}
 	c.R.Count("R14:functions", len(fns))
+	checkV1DiffDeadline(c, p, fns)
 	flows := map[*ssa.Function]*eng.LockFlow{}
 	acqs := 0
 	for _, f := range fns {
@@ -628,4 +629,66 @@ func checkPublishAfterInit(c *Ctx, p *core.Prog, fns []*ssa.Function, kvName, la
 		}
 	}
 	c.R.RequireMin("R14.6", "known values constructed and published", n, 1)
+}
+
+// checkV1DiffDeadline: R14.7. "Concurrent calls return what the same calls return one after the other" also rules out a
+// dependence on how long a call takes. go-diff gives up on a diff when a wall-clock deadline (DiffTimeout, one second
+// unless it is changed) passes and returns a coarser result; under CPU contention every call takes longer, so results
+// change with the number of concurrent callers. Every DiffMain call of the v1 classifier must therefore run with the
+// deadline switched off (a DiffTimeout <= 0 stored into the differ it uses).
+func checkV1DiffDeadline(c *Ctx, p *core.Prog, fns []*ssa.Function) {
+	n := 0
+	for _, fn := range fns {
+		for _, call := range core.CallsIn(fn) {
+			name := core.StaticCalleeName(call.Common())
+			if !strings.HasPrefix(name, "(*"+core.DiffPkg+".DiffMatchPatch).DiffMain") {
+				continue
+			}
+			n++
+			recv := call.Common().Args[0]
+			off := false
+			// the differ: a package-level variable (or a local) whose DiffTimeout field is stored a constant <= 0
+			var base ssa.Value = recv
+			if ld, ok := recv.(*ssa.UnOp); ok {
+				base = ld.X
+			}
+			for _, f2 := range append(pkgFuncs(p, scPkg), initOf(p, scPkg)...) {
+				for _, b := range f2.Blocks {
+					for _, in := range b.Instrs {
+						st, ok := in.(*ssa.Store)
+						if !ok {
+							continue
+						}
+						fa, ok := st.Addr.(*ssa.FieldAddr)
+						if !ok || core.FieldName(fa) != "DiffTimeout" {
+							continue
+						}
+						b2 := fa.X
+						if ld, ok := b2.(*ssa.UnOp); ok {
+							b2 = ld.X
+						}
+						if b2 != base && fa.X != recv {
+							continue
+						}
+						if k, isK := core.ConstInt(st.Val); isK && k <= 0 {
+							off = true
+						}
+					}
+				}
+			}
+			c.R.Check(off, "R14.7", "v1: the text diff (DiffMain) runs without go-diff's wall-clock deadline", p.Pos(call.Pos()), "DiffTimeout <= 0 is stored into the differ",
+				"the differ is used with go-diff's default DiffTimeout (one second of wall-clock time): when a diff takes longer - which it does when many calls run at once - go-diff gives up on it and returns a coarser result, so the confidence drops or the match disappears depending on the load")
+		}
+	}
+	c.R.RequireMin("R14.7", "DiffMain call sites in stringclassifier", n, 1)
+}
+
+// initOf returns the package initialiser of pkg (as a one-element list, or nothing).
+func initOf(p *core.Prog, pkg string) []*ssa.Function {
+	if sp := p.SSAPkgs[pkg]; sp != nil {
+		if f := sp.Func("init"); f != nil {
+			return []*ssa.Function{f}
+		}
+	}
+	return nil
 }
